@@ -228,9 +228,9 @@ func inexpressible(nodes []parser.Node) string {
 					return "brace-token"
 				case a == "}" && j == len(n.Args)-1:
 					return "brace-token"
-				case strings.Contains(a, "$("):
+				case !macroInert(a):
 					return "macro-syntax"
-				case strings.Contains(a, "{env:"):
+				case !envInert(a):
 					return "env-syntax"
 				}
 			}
@@ -240,6 +240,37 @@ func inexpressible(nodes []parser.Node) string {
 		}
 	}
 	return ""
+}
+
+// macroInert: the token contains nothing the parser would treat as a macro
+// reference when it reads the token again (there is no way to escape one in
+// any syntax, so such tokens are outside "expressible in the quoted syntax").
+// A reference is "$(" + one or more non-'$' characters + ")", or a whole token
+// of the form "$(" ... ")".
+func macroInert(a string) bool {
+	if strings.HasPrefix(a, "$(") && strings.HasSuffix(a, ")") {
+		return false
+	}
+	for i := 0; i+1 < len(a); i++ {
+		if a[i] != '$' || a[i+1] != '(' {
+			continue
+		}
+		for k := i + 2; k < len(a) && a[k] != '$'; k++ {
+			if a[k] == ')' && k > i+2 {
+				return false
+			}
+		}
+	}
+	return true
+}
+
+// envInert: no "{env:" + one or more characters + "}" can be found in the token.
+func envInert(a string) bool {
+	i := strings.Index(a, "{env:")
+	if i < 0 {
+		return true
+	}
+	return strings.LastIndex(a, "}") < i+6
 }
 
 func printTree(nodes []parser.Node) string {
